@@ -651,12 +651,638 @@ class C12(PrefixFaultProp):
             "loss with at least one unfinished QoS>0 publish.")
 
 
+def o_setid(ad, a, b, c):
+    return [("setid", 65520 + (a % 16))]
+
+
+def o_walk_short(ad, a, b, c):
+    return [("walk", ad, 10 + a % 40, 1 + (b & 1))]
+
+
+T_IDS = G.Table([
+    (10, G.o_publish_q12), (4, G.o_subscribe), (3, G.o_unsubscribe), (6, G.o_ack_good), (3, G.o_window), (3, o_setid),
+    (4, o_walk_short), (2, G.o_lose_reconnect_persist), (1, G.o_lose_reconnect_clean), (2, G.o_pubrec), (1, G.o_fire),
+    (1, G.o_publish_q0),
+])
+
+
 class C17(SessionProp):
     id = "C17"
     monitor = staticmethod(M.mon_c17)
-    table = T_MIX
+    table = T_IDS
     naddr = 2
-    rule = ("placeholder")
+    profiles = (3, 3, 2)
+    max_words = 40
+    pre_kwargs = dict(windows=(16, 16, 4, 2), keepalives=(0,))
+    rule = ("Histories on two addresses of one factory creating unfinished requests of every kind (held back, "
+            "awaiting PUBACK/PUBREC/PUBCOMP/SUBACK/UNSUBACK, preserved by a persistent session), with the id "
+            "counter placed at 65520..65535 at generated moments and short runs of acknowledged publishes; plus "
+            "natural wraps: walks of 66 000 / 140 000 acknowledged QoS 1/2 publishes with 1..6 old requests of "
+            "various kinds kept unfinished, both session modes. Oracle: every id on the wire and every "
+            "Deferred.msgId is in 1..65535 and, when a request is accepted, differs from the id of every "
+            "unfinished request of the factory (any address, any kind). Non-trivial = the counter wraps; "
+            "distinct = distinct case hash.")
+
+    def strategy(self, tier):
+        tb = self.table
+
+        def mk(cfg, pre, ws):
+            ops = G.preamble(cfg, pre)
+            # second address up as well
+            ops += [("build", 1), ("handlers", 1, 7), ("window", 1, 4), ("connect", 1, 0, pre.get("clean", 1), 0),
+                    ("rx", 1, "CONNACK", 0, 0)]
+            return (cfg, ops + tb.decode(ws, 2))
+        return st.builds(mk, G.cfg_strategy(self.profiles), G.pre_strategy(**self.pre_kwargs), G.words(self.max_words, naddr=2))
+
+    def exhaustive_specs(self, tier, seed):
+        n = 16 if tier == "quick" else 64
+        return [("walk", i, seed) for i in range(n)]
+
+    def run_exhaustive(self, spec, res):
+        _, i, seed = spec
+        cfg = dict(profile=3 if i % 3 else 2, version=4 if i % 2 else 3, jitter=0.25)
+        clean = (i >> 1) & 1
+        ops = [("build", 0), ("handlers", 0, 7), ("window", 0, 16), ("connect", 0, 0, clean, 0), ("rx", 0, "CONNACK", 0, 0),
+               ("build", 1), ("handlers", 1, 7), ("window", 1, 16), ("connect", 1, 0, clean, 0), ("rx", 1, "CONNACK", 0, 0)]
+        # old requests of various kinds, left unfinished
+        kinds = [("publish", 0, 1), ("publish", 0, 2), ("subscribe", 0, 2, 2, 1), ("unsubscribe", 0, 1, 1, 0),
+                 ("publish", 1, 1), ("publish", 1, 2)]
+        start = (i * 7 + seed) % 50
+        ops.append(("walk", 0, start, 1))
+        chosen = [kinds[(i + j) % len(kinds)] for j in range(1 + i % 6)]
+        for kk in chosen:
+            if cfg["profile"] == 2 and kk[0] != "publish":
+                continue
+            ops.append(kk)
+        if i % 4 == 1:
+            ops.append(("rx", 0, "PUBREC", 0, 0, 0))       # one of them now awaits PUBCOMP
+        if i % 5 == 2 and not clean:
+            ops += [("lose", 1, 1), ("build", 1), ("window", 1, 16), ("connect", 1, 0, 0, 0), ("rx", 1, "CONNACK", 0, 1)]
+        ops.append(("walk", (i >> 2) & 1 if not (i % 5 == 2) else 0, 66000 if i % 8 else 140000, 1 + (i % 2)))
+        ops += [("publish", 0, 1), ("subscribe", 0, 0, 1, 0), ("publish", 1, 2)]
+        case = (cfg, ops)
+        res.add("wrap_walk", case, self.check_case(case))
+        res.exhaustive["walk%d" % i] = 1
+        return res
+
+
+def _norm_marker(x, ren):
+    import re as _re
+    if isinstance(x, (bytes, bytearray)):
+        def rb(m):
+            return b"#" + str(ren("m", int(m.group(1)))).encode() + b"#"
+        x = _re.sub(rb"^#(\d+)#", rb, bytes(x))
+        def rb2(m):
+            return b"<" + str(ren("i", int(m.group(1)))).encode() + b">"
+        return _re.sub(rb"^<(\d+)>", rb2, x)
+    if isinstance(x, str):
+        def rs(m):
+            return m.group(1) + str(ren("m", int(m.group(2)))) + "/"
+        return _re.sub(r"^([su])(\d+)/", rs, x)
+    return x
+
+
+def address_view(w, a):
+    """the observation log restricted to one address, ids / request numbers / markers renamed by
+    order of first appearance; timers are compared separately"""
+    maps = {}
+
+    def ren(space, v):
+        m = maps.setdefault(space, {})
+        if v not in m:
+            m[v] = len(m)
+        return m[v]
+    out = []
+    for e in w.log:
+        if e.c is None or w.conns[e.c].a != a:
+            continue
+        k = e.k
+        if k == "write":
+            frs = []
+            for fr in e.d["frames"]:
+                f = fr[1]
+                if isinstance(f, dict):
+                    g = {}
+                    for kk, v in sorted(f.items()):
+                        if kk == "id" and v is not None and fr[0] in ("PUBLISH", "PUBREL", "SUBSCRIBE", "UNSUBSCRIBE"):
+                            v = ren("id", v)      # client-allocated; ids echoed to the broker are the broker's
+                        elif kk == "payload":
+                            v = _norm_marker(v, ren)
+                        elif kk == "topics":
+                            v = [(_norm_marker(t[0], ren), t[1]) if isinstance(t, tuple) else _norm_marker(t, ren) for t in v]
+                        elif kk == "client_id":
+                            v = "cid"
+                        g[kk] = v
+                    frs.append((fr[0], tuple(sorted((x, repr(y)) for x, y in g.items()))))
+                else:
+                    frs.append((fr[0], str(f)))
+            out.append(("write", round(e.t, 6), e.d["where"], tuple(frs), e.ctx[0] if e.ctx else None))
+        elif k == "fire":
+            v = e.d["val"]
+            if isinstance(v, int) and not isinstance(v, bool) and e.d["kind"] in ("publish", "unsubscribe"):
+                v = ren("id", v)
+            out.append(("fire", round(e.t, 6), e.d["kind"], ren("rid", e.d["rid"]), e.d["out"], repr(v)))
+        elif k == "cb":
+            d = dict(e.d)
+            d.pop("robj", None)
+            if "payload" in d:
+                d["payload"] = _norm_marker(bytes(d["payload"]), ren)
+            if d.get("msgid") is not None and "msgid" in d:
+                d["msgid"] = d["msgid"]       # inbound ids are the broker's, identical in both runs
+            out.append(("cb", round(e.t, 6), tuple(sorted((x, repr(y)) for x, y in d.items()))))
+        elif k in ("close", "abort", "lost", "raised"):
+            out.append((k, round(e.t, 6), e.d.get("reason") or e.d.get("exc")))
+        elif k == "api":
+            r = w.reqs[e.d["rid"]]
+            mid = r.msgid
+            if isinstance(mid, int) and not isinstance(mid, bool):
+                mid = ren("id", mid)
+            out.append(("api", round(e.t, 6), e.d["op"], ren("rid", e.d["rid"]), e.d.get("ret"), e.d.get("state"),
+                        e.d.get("state_after"), repr(mid)))
+    return out
+
+
+
+def op_addr(op):
+    if op[0] in ("advance", "fire", "idle", "setid"):
+        return None
+    return op[1]
+
+
+T_TWO = G.Table([
+    (10, G.o_publish), (4, G.o_subscribe), (2, G.o_unsubscribe), (8, G.o_ack_good), (2, G.o_ack_any), (3, G.o_inpub),
+    (2, G.o_inrel), (5, G.o_advance_small), (2, G.o_window), (2, G.o_lose), (2, G.o_lose_reconnect_persist),
+    (2, G.o_lose_reconnect_clean), (1, G.o_reconnect_noack), (1, G.o_connack_ok), (1, G.o_disconnect), (1, G.o_settle),
+])
+
+
+class C19(SessionProp):
+    id = "C19"
+    table = T_TWO
+    naddr = 2
+    max_words = 30
+    rule = ("One op list over two broker addresses A and B of one factory plus global time steps (advance only): "
+            "publishes, subscribes, acks, inbound traffic, window changes, loss and clean/persistent reconnect on "
+            "either side while the other is mid-exchange; generated interleavings, plus every interleaving of every "
+            "pair of solo histories up to length 2/3 over a 6-op alphabet (exhaustive). Oracle (metamorphic): the "
+            "merged run is compared with the two runs obtained by deleting the other address's operations on a "
+            "fresh factory: per address the observation logs (API results, writes with times, Deferred outcomes, "
+            "callbacks, transport calls) must be equal after renaming identifiers by order of first appearance, "
+            "and after every step the multiset of pending timer times of the merged run equals the union of the "
+            "two solo runs; the C17 monitor runs on the merged run. Non-trivial = both addresses have a request "
+            "outstanding at the same step.")
+
+    def strategy(self, tier):
+        tb = self.table
+
+        def mk(cfg, preA, preB, ws):
+            ops = G.preamble(cfg, preA)
+            pb = [tuple([o[0], 1] + list(o[2:])) for o in G.preamble(cfg, preB)]
+            return (cfg, ops + pb + tb.decode(ws, 2) + [("advance", 12)])
+        return st.builds(mk, G.cfg_strategy((3, 3, 1, 2)), G.pre_strategy(), G.pre_strategy(),
+                         G.words(self.max_words if tier == "quick" else 60, naddr=2))
+
+    def check_case(self, case):
+        cfg, ops = case
+        ops = [tup(o) for o in ops]
+        vd = Verdict()
+        merged = sim.run_case(dict(cfg), ops)
+        if merged.too_big:
+            vd.label("case_aborted_too_many_events")
+            return vd
+        FM = Facts(merged)
+        M.mon_c17(merged, FM, vd)
+        vd.viols = [v for v in vd.viols]
+        vd.nontrivial = False
+        both = False
+        pend = {0: set(), 1: set()}
+        for e in merged.log:
+            if e.k == "api":
+                ri = FM.info.get(e.d["rid"])
+                if ri is not None and ri.accepted and not (ri.kind == "publish" and ri.qos == 0):
+                    pend[ri.a].add(ri.rid)
+            elif e.k == "fire":
+                for a in (0, 1):
+                    pend[a].discard(e.d["rid"])
+            elif e.k == "timers" and pend[0] and pend[1]:
+                both = True
+        vd.nontrivial = both
+        for a in (0, 1):
+            keep = [i for i, o in enumerate(ops) if op_addr(o) in (None, a)]
+            solo = sim.run_case(dict(cfg), [ops[i] for i in keep])
+            va, vs = address_view(merged, a), address_view(solo, a)
+            if va != vs:
+                j = next((k for k in range(min(len(va), len(vs))) if va[k] != vs[k]), min(len(va), len(vs)))
+                vd.bad("C19.behaviour_differs", "address %d: event %d differs: with the other address active %s, alone %s" % (
+                    a, j, repr(va[j])[:160] if j < len(va) else "<nothing>", repr(vs[j])[:160] if j < len(vs) else "<nothing>"))
+            # timers: merged == union of the solos, after every step
+            if a == 0:
+                solos = {}
+            solos[a] = (keep, solo)
+        stepmap = {}
+        for a in (0, 1):
+            keep, solo = solos[a]
+            pos = {}
+            for j, i in enumerate(keep):
+                pos[i] = j
+            stepmap[a] = (keep, pos, dict((e.step, [round(t, 6) for t, _ in e.d["pending"]]) for e in solo.log if e.k == "timers"))
+        for e in merged.log:
+            if e.k != "timers":
+                continue
+            want = []
+            for a in (0, 1):
+                keep, pos, tm = stepmap[a]
+                # last kept op at or before this merged step
+                import bisect
+                j = bisect.bisect_right(keep, e.step) - 1
+                if j >= 0:
+                    want += tm.get(j, [])
+            got = sorted(round(t, 6) for t, _ in e.d["pending"])
+            if got != sorted(want):
+                vd.bad("C19.timers_differ", "after step %d pending timers %s, the two solo runs together have %s" % (
+                    e.step, got[:8], sorted(want)[:8]))
+                break
+        return vd
+
+    EX_ALPHA = [
+        ("publish", 1), ("publish", 2), ("subscribe", 0, 1, 1), ("rx", "PUBACK", 0, 0, 0), ("rx", "PUBREC", 0, 0, 0), ("lose", 1),
+        ("reconnect", 0), ("reconnect", 1),
+    ]
+
+    @staticmethod
+    def _ops_for(sym, a):
+        if sym[0] == "reconnect":
+            return [("lose", a, 0), ("build", a), ("handlers", a, 7), ("connect", a, 0, sym[1], 0), ("rx", a, "CONNACK", 0, 0)]
+        if sym[0] == "rx":
+            return [("rx", a) + tuple(sym[1:])]
+        return [(sym[0], a) + tuple(sym[1:])]
+
+    def exhaustive_specs(self, tier, seed):
+        n = len(self.EX_ALPHA)
+        L = 2 if tier == "quick" else 3
+        hists = [()]
+        for ln in range(1, L + 1):
+            hists += list(itertools.product(range(n), repeat=ln))
+        specs = []
+        per = max(1, len(hists) // 32)
+        for i in range(0, len(hists), per):
+            specs.append(("pairs", L, i, min(i + per, len(hists))))
+        return specs
+
+    def run_exhaustive(self, spec, res):
+        _, L, lo, hi = spec
+        n = len(self.EX_ALPHA)
+        hists = [()]
+        for ln in range(1, L + 1):
+            hists += list(itertools.product(range(n), repeat=ln))
+        cfg = dict(profile=3, version=4, jitter=0.25)
+        pre = []
+        for a in (0, 1):
+            pre += [("build", a), ("handlers", a, 7), ("window", a, 2), ("connect", a, 0, a, 0), ("rx", a, "CONNACK", 0, 0)]
+        cnt = 0
+        for ha in hists[lo:hi]:
+            for hb in hists:
+                if L >= 3 and len(ha) + len(hb) > 4:
+                    continue
+                for order in _interleavings(len(ha), len(hb)):
+                    ops = list(pre)
+                    ia = ib = 0
+                    for who in order:
+                        if who == 0:
+                            ops += self._ops_for(self.EX_ALPHA[ha[ia]], 0)
+                            ia += 1
+                        else:
+                            ops += self._ops_for(self.EX_ALPHA[hb[ib]], 1)
+                            ib += 1
+                    ops.append(("advance", 9))
+                    case = (cfg, ops)
+                    res.add("exhaustive:interleavings", case, self.check_case(case))
+                    cnt += 1
+        res.exhaustive["pairs_L%d_%d_%d" % (L, lo, hi)] = cnt
+        return res
+
+
+def _interleavings(na, nb):
+    if na == 0:
+        yield (1,) * nb
+        return
+    if nb == 0:
+        yield (0,) * na
+        return
+    for rest in _interleavings(na - 1, nb):
+        yield (0,) + rest
+    for rest in _interleavings(na, nb - 1):
+        yield (1,) + rest
+
+
+
+def lib_effects(w, from_ei=0):
+    """what the client did, in order, from event index from_ei on (deliveries themselves left out)"""
+    out = []
+    for e in w.log[from_ei:]:
+        k = e.k
+        if k == "write":
+            out.append(("write", e.d["where"], bytes(e.d["data"])))
+        elif k == "fire":
+            out.append(("fire", e.d["kind"], e.d["rid"], e.d["out"], repr(e.d["val"])))
+        elif k == "cb":
+            d = dict(e.d)
+            d.pop("robj", None)
+            if "payload" in d:
+                d["payload"] = bytes(d["payload"])
+            out.append(("cb",) + tuple(sorted((x, repr(y)[:300] if not isinstance(y, bytes) else (len(y), y[:64])) for x, y in d.items())))
+        elif k in ("close", "abort"):
+            out.append((k,))
+        elif k == "escape":
+            out.append(("escape", e.d["exc"]))
+    return out
+
+
+T_STREAM = G.Table([
+    (6, G.o_puback), (6, G.o_pubrec), (6, G.o_pubcomp), (5, G.o_suback), (4, G.o_unsuback), (10, G.o_inpub),
+    (5, G.o_inrel), (3, G.o_pingresp), (2, G.o_ack_good),
+])
+T_SETUP = G.Table([
+    (10, G.o_publish_q12), (3, G.o_publish_q0), (4, G.o_subscribe), (3, G.o_unsubscribe), (2, G.o_pubrec), (1, G.o_inpub_q2),
+])
+
+
+class C03(SessionProp):
+    id = "C03"
+    rule = ("A stream is a generated list of well-formed broker packets (CONNACK, PUBACK/PUBREC/PUBCOMP for pending "
+            "or unknown ids, SUBACK, UNSUBACK, PINGRESP, PUBREL for stored ids, PUBLISH at each QoS with payloads "
+            "giving 1-, 2- and 3-byte remaining lengths, 4-byte in thorough) delivered to a client first driven "
+            "into a state where each packet has an observable effect. Compositions: all 2^(n-1) for streams up to "
+            "12/15 bytes (exhaustive), every 1-cut, byte-at-a-time, 2-cuts around packet boundaries and length "
+            "fields, and Hypothesis-drawn compositions incl. empty chunks. Oracle (metamorphic): everything the "
+            "client does (bytes written, Deferred outcomes, onPublish arguments, close calls, final pending "
+            "timers) in the chunked run equals the run where each packet is its own chunk; and in that reference "
+            "run each solicited packet shows its one expected effect. Non-trivial = at least one cut falls "
+            "strictly inside a packet.")
+    profiles = (3, 3, 1, 2)
+    max_exhaustive_bytes = 14
+
+    def strategy(self, tier):
+        def mk(cfg, pre, setup_w, stream_w, cutseed, mode, with_connack):
+            pre = dict(pre)
+            pre["connack"] = not with_connack
+            pre["keepalive"] = pre["keepalive"] or 0
+            setup = G.preamble(cfg, pre)
+            if not with_connack:
+                setup += [("window", 0, 8)] + T_SETUP.decode(setup_w)
+            stream = ([("rx", 0, "CONNACK", 0, 1)] if with_connack else []) + T_STREAM.decode(stream_w)
+            return (cfg, setup, stream, ("gen", mode, cutseed))
+        return st.builds(mk, G.cfg_strategy(self.profiles), G.pre_strategy(keepalives=(0, 7, 60)), G.words(8), G.words(8, 1),
+                         st.lists(st.integers(0, 2 ** 16 - 1), min_size=1, max_size=12), st.integers(0, 5), st.booleans())
+
+    def case_to_json(self, case):
+        cfg, setup, stream, cuts = case
+        return {"cfg": cfg, "setup": [list(o) for o in setup], "stream": [list(o) for o in stream], "cuts": list(cuts) if isinstance(cuts, tuple) else cuts}
+
+    def case_from_json(self, j):
+        c = j["cuts"]
+        return (j["cfg"], [tup(o) for o in j["setup"]], [tup(o) for o in j["stream"]], tup(c) if isinstance(c, list) and c and isinstance(c[0], str) else c)
+
+    # -- reference run: one packet per chunk
+    def reference(self, cfg, setup, stream):
+        w = sim.World(dict(cfg))
+        try:
+            w.run(setup)
+            mark = len(w.log)
+            w.run(stream)
+            w.do(("advance", 0))
+        except sim.CaseTooBig:
+            w.too_big = True
+        finally:
+            w.finish()
+        rxs = [e for e in w.log[mark:] if e.k == "rx"]
+        data = [bytes(e.d["data"]) for e in rxs]
+        return w, mark, data, rxs
+
+    def chunked(self, cfg, setup, blob, cuts):
+        w = sim.World(dict(cfg, rude=True))
+        try:
+            w.run(setup)
+            mark = len(w.log)
+            w.do(("raw", 0, blob, cuts))
+            w.do(("advance", 0))
+        except sim.CaseTooBig:
+            w.too_big = True
+        finally:
+            w.finish()
+        return w, mark
+
+    @staticmethod
+    def cuts_from(spec, data):
+        """spec ('gen', mode, seeds) -> sorted cut offsets into the concatenated stream"""
+        total = sum(len(d) for d in data)
+        bounds = []
+        acc = 0
+        for d in data:
+            bounds.append(acc)
+            acc += len(d)
+        if not isinstance(spec, tuple) or spec[0] != "gen":
+            return sorted(set(int(x) for x in spec))
+        _, mode, seeds = spec
+        if total < 2:
+            return []
+        if mode == 0:      # byte at a time
+            return list(range(1, total))
+        if mode == 1:      # one cut
+            return [1 + seeds[0] % (total - 1)]
+        if mode == 2:      # cuts in and around fixed headers / length fields
+            cs = set()
+            for i, sd in enumerate(seeds):
+                b = bounds[sd % len(bounds)]
+                cs.add(b + 1 + (sd >> 8) % 4)
+            return sorted(c for c in cs if 0 < c < total)
+        if mode == 3:      # several packets per chunk: cuts only at some packet boundaries
+            return sorted(set(bounds[sd % len(bounds)] for sd in seeds[:3]) - {0})
+        cs = set(1 + sd % (total - 1) for sd in seeds)   # random composition
+        return sorted(cs)
+
+    def compare(self, vd, cfg, setup, stream, cutspec, ref=None):
+        ref = ref or self.reference(cfg, setup, stream)
+        w1, mark1, data, rxs = ref
+        if w1.too_big or not data:
+            return
+        blob = b"".join(data)
+        cuts = self.cuts_from(cutspec, data)
+        w2, mark2 = self.chunked(cfg, setup, blob, cuts)
+        if w2.too_big:
+            return
+        e1, e2 = lib_effects(w1, mark1), lib_effects(w2, mark2)
+        # the reference run spreads the stream over several steps; effects are compared as sequences
+        if e1 != e2:
+            j = next((k for k in range(min(len(e1), len(e2))) if e1[k] != e2[k]), min(len(e1), len(e2)))
+            vd.bad("C03.effects_differ", "stream of %d packets / %d bytes cut at %s: effect %d is %s chunked, %s with one packet per chunk" % (
+                len(data), len(blob), cuts[:8], j, repr(e2[j])[:120] if j < len(e2) else "<missing>",
+                repr(e1[j])[:120] if j < len(e1) else "<missing>"))
+        t1 = sorted(round(t, 6) for t, _ in w1.timers_final)
+        t2 = sorted(round(t, 6) for t, _ in w2.timers_final)
+        if t1 != t2:
+            vd.bad("C03.timers_differ", "pending timers after the stream: chunked %s, one packet per chunk %s" % (t2[:6], t1[:6]))
+        # classification
+        bounds = set()
+        acc = 0
+        for d in data:
+            acc += len(d)
+            bounds.add(acc)
+        inside = [c for c in cuts if c not in bounds]
+        vd.nontrivial = bool(inside)
+        if inside:
+            vd.label("cut_inside_packet")
+        starts = [0] + sorted(bounds)
+        for c in cuts:
+            for i, s0 in enumerate(starts[:-1]):
+                if s0 < c < starts[i + 1]:
+                    off = c - s0
+                    d = data[i]
+                    lenlen = 1
+                    while d[lenlen] & 0x80:
+                        lenlen += 1
+                    if off == 1:
+                        vd.label("cut_between_type_and_length")
+                    elif off <= lenlen:
+                        vd.label("cut_inside_length_field")
+                    vd.label("length_width:%d" % lenlen)
+        if len(cuts) < len(data) - 1:
+            vd.label("several_packets_in_one_chunk")
+        if any(not c for c in []):
+            pass
+
+    def expected_effects(self, vd, ref):
+        """(ii) the one-packet-per-chunk run shows the expected effect of each solicited packet"""
+        w1, mark1, data, rxs = ref
+        for e in rxs:
+            d = e.d["desc"]
+            evs = M._ctx_events(w1, e)
+            kinds = [x.k for x in evs]
+            if d[0] in ("PUBACK", "PUBCOMP", "SUBACK", "UNSUBACK") and d[-1] in (0, 1, 2):
+                if d[0] == "PUBCOMP":
+                    continue     # only effective after a PUBREC; judged by C05
+                if "fire" not in kinds:
+                    vd.bad("C03.packet_without_effect", "%s id %s did not complete its request" % (d[0], d[1]))
+            elif d[0] == "PUBREC" and d[-1] in (0, 1, 2):
+                if not any(x.k == "write" and any(fr[0] == "PUBREL" for fr in x.d["frames"]) for x in evs):
+                    vd.bad("C03.packet_without_effect", "PUBREC id %s not answered with PUBREL" % d[1])
+            elif d[0] == "PINGRESP" and d[1] and w1.ops_done[e.step][0] == "rx":
+                a_, b_ = None, None
+                for x in w1.log:
+                    if x.k == "timers" and x.step == e.step - 1:
+                        a_ = x
+                    elif x.k == "timers" and x.step == e.step:
+                        b_ = x
+                if a_ is not None and b_ is not None and len(b_.d["pending"]) != len(a_.d["pending"]) - 1:
+                    vd.bad("C03.packet_without_effect", "PINGRESP for an outstanding PINGREQ did not cancel the deadline (%d timers before, %d after)" % (
+                        len(a_.d["pending"]), len(b_.d["pending"])))
+            elif d[0] == "PUBLISH" and (w1.cfg["profile"] & 1):
+                want = {0: None, 1: "PUBACK", 2: "PUBREC"}[d[1]]
+                if want and not any(x.k == "write" and any(fr[0] == want for fr in x.d["frames"]) for x in evs):
+                    vd.bad("C03.packet_without_effect", "PUBLISH qos %d not answered with %s" % (d[1], want))
+
+    def check_case(self, case):
+        cfg, setup, stream, cutspec = case
+        setup = [tup(o) for o in setup]
+        stream = [tup(o) for o in stream]
+        vd = Verdict()
+        ref = self.reference(cfg, setup, stream)
+        self.expected_effects(vd, ref)
+        self.compare(vd, cfg, setup, stream, cutspec, ref)
+        return vd
+
+    def shrink(self, case, rule):
+        cfg, setup, stream, cutspec = case
+
+        def fails_stream(st_):
+            return any(v.rule == rule for v in self.check_case((cfg, setup, st_, cutspec)).viols)
+        stream = ddmin(list(stream), fails_stream, budget=300)
+
+        def fails_setup(su):
+            return any(v.rule == rule for v in self.check_case((cfg, su, stream, cutspec)).viols)
+        setup = ddmin(list(setup), fails_setup, budget=300)
+        # explicit cuts
+        ref = self.reference(cfg, [tup(o) for o in setup], [tup(o) for o in stream])
+        cuts = self.cuts_from(cutspec, ref[2]) if ref[2] else []
+
+        def fails_cuts(cs):
+            return any(v.rule == rule for v in self.check_case((cfg, setup, stream, list(cs))).viols)
+        if cuts and fails_cuts(cuts):
+            cuts = ddmin(cuts, fails_cuts, budget=200)
+            return (cfg, setup, stream, list(cuts))
+        return (cfg, setup, stream, cutspec)
+
+    # -- exhaustive compositions of short streams
+    SHORT = [
+        ([("publish", 0, 1), ("publish", 0, 2)], [("rx", 0, "PUBACK", 0, 0, 0), ("rx", 0, "PUBREC", 0, 0, 0), ("rx", 0, "PUBCOMP", 0, 0, 0)]),
+        ([("publish", 0, 1)], [("rx", 0, "PINGRESP"), ("rx", 0, "PUBACK", 0, 0, 0), ("rx", 0, "PINGRESP"), ("rx", 0, "PUBACK", 4, 0, 0)]),
+        ([("subscribe", 0, 0, 1, 1)], [("rx", 0, "SUBACK", 0, 1, 0), ("rx", 0, "PINGRESP"), ("rx", 0, "PUBACK", 4, 0, 0)]),
+        ([("unsubscribe", 0, 0, 1, 0), ("rx", 0, "PUBLISH", 2, 0, 1)], [("rx", 0, "UNSUBACK", 0, 0, 0), ("rx", 0, "PUBREL", 0, 0, 0), ("rx", 0, "PUBREL", 3, 0, 0)]),
+        ([], [("rx", 0, "PUBLISH", 0, 12, 0), ("rx", 0, "PINGRESP")]),
+        ([], [("rx", 0, "PUBLISH", 1, 12, 0)]),
+        ([], [("rx", 0, "PUBLISH", 2, 12, 0), ("rx", 0, "PUBREL", 0, 0, 0)]),
+    ]
+
+    def exhaustive_specs(self, tier, seed):
+        self.max_exhaustive_bytes = 14 if tier == "quick" else 17
+        specs = [("short", i, j, self.max_exhaustive_bytes) for i in range(len(self.SHORT)) for j in range(2)]
+        specs += [("connack", k) for k in range(2)]
+        specs += [("long", i) for i in range(4 if tier == "quick" else 8)]
+        return specs
+
+    def run_exhaustive(self, spec, res):
+        cfg = dict(profile=3, version=4, jitter=0.25)
+        if spec[0] == "short":
+            self.max_exhaustive_bytes = spec[3]
+            setup_extra, stream = self.SHORT[spec[1]]
+            if spec[2]:
+                cfg = dict(profile=3, version=3, jitter=0.0)
+            setup = G.preamble(cfg, dict(window=4, keepalive=7 if spec[1] in (1, 4) else 0)) + setup_extra
+        elif spec[0] == "connack":
+            setup = [("build", 0), ("handlers", 0, 7), ("connect", 0, 7 * spec[1], 1, 0), ("publish", 0, 1)]
+            stream = [("rx", 0, "CONNACK", 0, 1), ("rx", 0, "PUBACK", 0, 0, 0), ("rx", 0, "PUBLISH", 0, 0, 0)]
+        else:
+            # long packets: 2- and 3-byte (thorough: 4-byte) remaining lengths, every 1-cut near the header and a stride elsewhere
+            size_bits = [(3 << 4), (4 << 4), (5 << 4), (4 << 4) | 1, (3 << 4), (5 << 4), (4 << 4), (3 << 4)][spec[1] % 8]
+            setup = G.preamble(cfg, dict(window=4)) + [("publish", 0, 1)]
+            stream = [("rx", 0, "PUBACK", 0, 0, 0), ("rx", 0, "PUBLISH", 1 + spec[1] % 2, size_bits | 4, 0), ("rx", 0, "PINGRESP"),
+                      ("rx", 0, "PUBLISH", 0, size_bits, 0)]
+        ref = self.reference(cfg, setup, stream)
+        data = ref[2]
+        total = sum(len(d) for d in data)
+        n = 0
+        if spec[0] in ("short", "connack") and total <= self.max_exhaustive_bytes:
+            lim = total - 1
+            for mask in range(1 << lim):
+                cuts = [i + 1 for i in range(lim) if (mask >> i) & 1]
+                vd = Verdict()
+                self.compare(vd, cfg, setup, stream, cuts, ref)
+                res.add("exhaustive:compositions", (cfg, setup, stream, cuts), vd)
+                n += 1
+            res.exhaustive["%s%s/%d_bytes_all_compositions" % (spec[0], spec[1:], total)] = n
+        else:
+            bounds = []
+            acc = 0
+            for d in data:
+                bounds.append(acc)
+                acc += len(d)
+            ones = set()
+            for b in bounds:
+                ones.update(range(max(1, b - 3), min(total, b + 8)))
+            ones.update(range(1, total, max(1, total // 200)))
+            for c in sorted(ones):
+                vd = Verdict()
+                self.compare(vd, cfg, setup, stream, [c], ref)
+                res.add("exhaustive:one_cut", (cfg, setup, stream, [c]), vd)
+                n += 1
+            near = sorted(x for x in ones if any(abs(x - b) <= 5 for b in bounds))
+            for c1, c2 in itertools.combinations(near, 2):
+                vd = Verdict()
+                self.compare(vd, cfg, setup, stream, [c1, c2], ref)
+                res.add("exhaustive:two_cuts", (cfg, setup, stream, [c1, c2]), vd)
+                n += 1
+            res.exhaustive["%s%s/%d_bytes_cuts" % (spec[0], spec[1:], total)] = n
+        return res
 
 
 PROPS = {}
@@ -683,3 +1309,6 @@ _reg(C13)
 _reg(C15)
 _reg(C11)
 _reg(C12)
+_reg(C17)
+_reg(C19)
+_reg(C03)
